@@ -21,6 +21,9 @@ smart/repository.py:recreate_search, which answers BadSearch for anything else; 
 recreate_search_from_recipe reads lines[0] as start keys (split on b" ") for the searcher, lines[1] as the keys to stop at,
 lines[2] as the ascii count. (K2) the server answers NoSuchRevision when the number of revisions it walked differs from
 the client's count, unless discard_excess was requested, and builds its SearchResult from what it walked.
+Added while testing against seeded changes: Also: the walked state (started_keys, excludes, included_keys) reaches the
+count check and the SearchResult unmodified; limited_search_result_from_parent_map returns exactly the locally
+replayed search's (start minus found heads, stop, len(keys)).
 Does not decide: that the client's recipe denotes the intended set of revisions (graph values).
 """
 
